@@ -114,12 +114,16 @@ def run_agg(case):
         rec["items"] = [summary_fields(s) for s in summaries]
         # "aggregating is plain addition" also for aggregates of aggregates (lines -> pages -> document): for every other
         # case the first k summaries are aggregated first and the result aggregated with the rest
+        # the summaries are handed over in the containers callers use: a list, a tuple, a generator, an iterator (one-shot)
+        sel = (sum(len(r) + 2 * len(h) for r, h in case["pairs"]) + len(case["pairs"])) % 4
+        wrap = [list, tuple, lambda xs: (x for x in xs), iter][sel]
+        rec["container"] = ["list", "tuple", "generator", "iterator"][sel]
         k = len(summaries) // 2 + 1
         if len(summaries) >= 2 and sum(len(r) + len(h) for r, h in case["pairs"]) % 2 == 0:
-            nested = ErrorsSummary.aggregate(summaries[:k])
-            rec["agg"] = summary_fields(ErrorsSummary.aggregate([nested] + summaries[k:]))
+            nested = ErrorsSummary.aggregate(wrap(summaries[:k]))
+            rec["agg"] = summary_fields(ErrorsSummary.aggregate(wrap([nested] + summaries[k:])))
         else:
-            rec["agg"] = summary_fields(ErrorsSummary.aggregate(summaries))
+            rec["agg"] = summary_fields(ErrorsSummary.aggregate(wrap(summaries)))
     except Exception as ex:
         rec["agg"] = {"o": "exception:" + type(ex).__name__}
     return rec
